@@ -40,7 +40,8 @@ try:
     out["suite_missing_stable_pass"] = missing[:10]
     ok = out["demo_clean_exit"] == 0 and out["demo_patched_exit"] != 0 and not missing
     out["valid"] = ok
-    r = subprocess.run([sys.executable, "/verif/tools/mutcheck.py", pid, "--patch", patch], capture_output=True, text=True)
+    VR = os.environ.get("VERIF_ROOT", "/verif")      # a snapshot of the committed machinery may stand in while contracts are being edited
+    r = subprocess.run([sys.executable, VR + "/tools/mutcheck.py", pid, "--patch", patch], capture_output=True, text=True)
     lines = [l for l in r.stdout.splitlines() if l.startswith(("VIOLATION", "UNDECIDED", "CHECKER-ERROR", "KNOWN", pid + " ")) or l.startswith("  function")]
     out["vf_check"] = {"caught": "VIOLATION property=%s" % pid in r.stdout, "exit_line": [l for l in r.stdout.splitlines() if l.startswith("exit ")][-1:],
                        "lines": lines[:12]}
